@@ -43,6 +43,14 @@ def cases(tier, seed):
             # the object under test lived on another box before (queries there, then SetBounds to this box)
             plo, phi, _ = scenario.gen_box(rng, N)
             out[-1]["prebox"] = [plo, phi]
+        elif i % 3 == 2:
+            # the Evolvent a Solver builds for this box and density
+            out[-1]["via_solver"] = True
+    for i in range(24 if tier == "quick" else 400):
+        rng = scenario.rng_for(seed, "C09s", i)
+        N = int(rng.integers(1, 6))
+        lo, hi, bk = scenario.gen_box(rng, N)
+        out.append({"kind": "solver-rebox", "N": N, "m": int(rng.integers(1, min(12, 50 // N) + 1)), "lower": lo, "upper": hi, "box": bk, "i": i, "seed": seed})
     for i in range(16 if tier == "quick" else 80):
         rng = scenario.rng_for(seed, "C09n1", i)
         lo, hi, bk = scenario.gen_box(rng, 1)
@@ -121,6 +129,8 @@ def check_point(ev, un, y_arg, y, lo, side, m, n, viol, obs, absmax, what):
 
 def make_evolvent(c, N, m, rng, obs):
     """the Evolvent for the case's box: fresh, or an object that answered queries on another box first and was then re-bounded"""
+    if c.get("via_solver"):
+        return em.solver_evolvent(c["lower"], c["upper"], N, m, rng, obs)
     if not c.get("prebox"):
         return Evolvent(c["lower"], c["upper"], N, m)
     plo, phi = np.array(c["prebox"][0], dtype=float), np.array(c["prebox"][1], dtype=float)
@@ -230,6 +240,30 @@ def run_case(c):
         obs["max_Nm"] = N * m
         return {"violations": viol, "obs": obs, "nontrivial": True, "key": "rand|%d|%d|%d" % (N, m, c["i"]),
                 "sample": {"kind": "random cells", "N": N, "m": m, "box": c["box"], "lower": c["lower"], "upper": c["upper"], "points": dict(kinds_seen)} if c["i"] < 3 else None}
+    if kind == "solver-rebox":
+        # Solver.evolvent after the problem object was given other bounds and the Solver worked: inverse(image(x)) is x rounded
+        # down to the subinterval grid whatever box the object is on (the law does not mention the box)
+        lo = np.array(c["lower"], dtype=float)
+        hi = np.array(c["upper"], dtype=float)
+        absmax = float(max(np.abs(lo).max(), np.abs(hi).max()))
+        smin = 0.2 * (hi - lo)          # the replaced bounds keep at least a fifth of every side
+        if N > 1 and not float((smin / 2 ** (m + 1)).min()) > 1e4 * np.finfo(float).eps * absmax:
+            return {"violations": [], "obs": {"solver_rebox_skipped_rounding": 1}, "nontrivial": False, "key": None}
+        tol1 = 64 * float(np.spacing(absmax)) / float(smin.min()) + 1e-12
+        ev = em.solver_evolvent(c["lower"], c["upper"], N, m, rng, obs, reassign=True)
+        tested = 0
+        for p in range(60):
+            x = float(rng.random()) if p > 2 else [0.0, 1.0, 0.5][p]
+            y = ev.GetImage(x)
+            exp = min(math.floor(x * n), n - 1) / n if N > 1 else x
+            for what, xb in (("GetInverseImage", float(ev.GetInverseImage(y))), ("GetPreimages", float(np.atleast_1d(ev.GetPreimages(y))[0]))):
+                tested += 1
+                ok = xb == exp if N > 1 else abs(xb - x) <= tol1
+                if not ok and len(viol) < 5:
+                    viol.append({"mech": "inverse-of-image-not-rounded-down", "N": N, "m": m, "x": x, "expected": exp, "got": xb, "call": what,
+                                 "what": "Solver.evolvent after the problem's bounds were replaced and the Solver iterated"})
+        obs["solver_rebox_round_trips"] = tested
+        return {"violations": viol, "obs": obs, "nontrivial": True, "key": "solver-rebox|%d|%d|%d" % (N, m, c["i"]), "sample": None}
     if kind == "n1":
         lo = float(c["lower"][0])
         hi = float(c["upper"][0])
@@ -274,7 +308,7 @@ def run_case(c):
 def finalize(obs, tier, stats):
     if obs.get("max_Nm", 0) < 48:
         return "random cells never reached N*m >= 48", {}
-    for k in ("round_trips", "inverse_calls", "face_points", "integer_typed_points", "pts_corner-lower", "pts_corner-upper", "n1_points", "x1_round_trip", "rebounded_objects", "work_buffer_queries"):
+    for k in ("round_trips", "inverse_calls", "face_points", "integer_typed_points", "pts_corner-lower", "pts_corner-upper", "n1_points", "x1_round_trip", "rebounded_objects", "work_buffer_queries", "evolvents_built_by_a_solver", "solver_rebox_round_trips"):
         if not obs.get(k):
             return "probe class %s never exercised" % k, {}
     return None, {}
